@@ -13,7 +13,7 @@ import (
 func init() {
 	register("C13", &ruleSet{
 		run:    runC13,
-		floors: map[string]int{"O1": 4, "O2": 2, "O3": 1, "O4": 1, "O5": 3, "O6": 2, "O7": 2, "O8": 1},
+		floors: map[string]int{"O1": 4, "O2": 2, "O3": 1, "O4": 1, "O5": 3, "O6": 2, "O7": 2, "O8": 1, "O9": 3},
 		explain: "Decides the existence and ordering of the give-up mechanisms (instants are not applicable to a static argument): (O1) every blocking select in " +
 			"the limiter package has a wake-up/hand-off case, a ctx.Done() case (unconditional in the cond-var wait, conditional only on the configured eviction flag " +
 			"in the queue limiter) and a timer case armed from the configured bound whenever that bound is positive (a select without a timer is reachable only when " +
@@ -95,6 +95,80 @@ func runC13(p *Prog, l *Ledger) {
 	l.Rule("O6", "not before the bound while no capacity is offered (decided by the C12/O4 and C10/O5 rules on the same tree): a queued caller is taken out of the backlog, and its hand-off channel written or closed, only by its own give-up or together with a token acquired for it")
 	importObligations(p, l, "C12", "O6", func(o *Obligation) bool { return o.Rule == "O4" })
 
+	// ---------------- O9: why a blocking limiter refuses
+	l.Rule("O9", "a limiter that blocks on a condition refuses only for a reason the property names: every path of its Acquire / tryAcquire that answers (nil, false) has tested, on that path, the caller's context, the clock against the deadline, or the outcome of a wait; a refusal decided by remembered state (a sticky 'expired' flag) can come long before the bound")
+	{
+		n9 := 0
+		for _, nt := range p.Implementers(p.coreIface("Limiter")) {
+			if !strings.HasPrefix(p.TypeKey(nt), "limiter.") || !hasCondField(nt) {
+				continue
+			}
+			for _, m := range p.MethodsOf(nt) {
+				res := m.Signature.Results()
+				if m.Blocks == nil || res.Len() != 2 {
+					continue
+				}
+				if b, ok := res.At(1).Type().Underlying().(*types.Basic); !ok || b.Kind() != types.Bool {
+					continue
+				}
+				n9++
+				var bad []string
+				np := 0
+				EnumPaths(m, 100000, func(pa *Path) bool {
+					if !pa.IsReturn() {
+						return true
+					}
+					rv := pa.ReturnValues()
+					if b, isC := constBool(strip(rv[1], false)); !isC || b {
+						return true
+					}
+					np++
+					ok := false
+					for _, fct := range pa.Facts {
+						seen := map[ssa.Value]bool{}
+						var walk func(v ssa.Value, d int)
+						walk = func(v ssa.Value, d int) {
+							if v == nil || seen[v] || d > 6 || ok {
+								return
+							}
+							seen[v] = true
+							if call, isCall := v.(*ssa.Call); isCall {
+								c := p.CallOf(call)
+								switch {
+								case c.Iface != nil && c.Iface.Name() == "Err" && strings.HasSuffix(c.Name, "(context.Context).Err"):
+									ok = true
+								case c.Is("(time.Time).After", "(time.Time).Before", "(time.Time).Sub", "time.Until", "time.Since", "(time.Time).Compare"):
+									ok = true
+								case c.Static != nil && p.InModule(c.Static) && c13Waits(p, c.Static, 3):
+									ok = true
+								}
+							}
+							if ins, isI := v.(ssa.Instruction); isI {
+								for _, op := range ins.Operands(nil) {
+									if op != nil && *op != nil {
+										walk(*op, d+1)
+									}
+								}
+							}
+						}
+						walk(fct.Cond, 0)
+						if ok {
+							break
+						}
+					}
+					if !ok {
+						bad = append(bad, "a path refuses without having tested the context, the deadline or a wait: "+joinWitness(p.DescribePath(pa)))
+					}
+					return len(bad) < 2
+				})
+				l.Check(len(bad) == 0, "O9", p.Key(m)+"/refusal-reason", p.FuncPos(m), fmt.Sprintf("%d refusing paths, each after a test of the context, the deadline or a wait's outcome", np), "a caller can be refused before its bound for a reason that is not its bound", bad...)
+			}
+		}
+		if n9 == 0 {
+			l.Infra("no Acquire / tryAcquire of a condition-based limiter found")
+		}
+	}
+
 	// ---------------- O8: nothing waits on a mutex it holds itself
 	l.Rule("O8", "no self-deadlock: no function takes (directly or through a method it calls on the same object) a sync mutex that it already holds on every path reaching that point; such a goroutine, and every Acquire that needs the mutex afterwards, blocks without any bound")
 	{
@@ -134,6 +208,58 @@ func runC13(p *Prog, l *Ledger) {
 		}
 		if n7 == 0 {
 			l.Infra("no timeout / deadline field found on the limiter types")
+		}
+		// a configuration's defaulting method only fills what was left unset: a duration the caller configured is not
+		// rescaled, capped or otherwise rewritten on its way to the limiter
+		for _, ct := range p.structTypes("limiter") {
+			ad := p.Method(ct, "ApplyDefaults")
+			if ad == nil || len(ad.Params) == 0 {
+				continue
+			}
+			cst := ct.Underlying().(*types.Struct)
+			for i := 0; i < cst.NumFields(); i++ {
+				ft, ok := cst.Field(i).Type().(*types.Named)
+				if !ok || ft.Obj().Pkg() == nil || ft.Obj().Pkg().Path() != "time" || ft.Obj().Name() != "Duration" {
+					continue
+				}
+				fr := FieldRef{Type: ct, Index: i, Name: cst.Field(i).Name()}
+				var bad []string
+				nst := 0
+				EnumPaths(ad, 100000, func(pa *Path) bool {
+					if !pa.IsReturn() {
+						return true
+					}
+					pa.Each(func(step int, ins ssa.Instruction) bool {
+						st, ok := ins.(*ssa.Store)
+						if !ok {
+							return true
+						}
+						fa, ok := st.Addr.(*ssa.FieldAddr)
+						if !ok {
+							return true
+						}
+						if f2, _, ok := fieldOf(fa); !ok || !sameField(f2, fr) {
+							return true
+						}
+						nst++
+						_, isC := strip(pa.Resolve(st.Val, step), true).(*ssa.Const)
+						unset := pa.HoldsRel(step+1, func(r Rel) bool {
+							f3, _, ok := loadedField(strip(r.X, true))
+							if !ok || !sameField(f3, fr) {
+								return false
+							}
+							k, isK := constInt(strip(r.Y, true))
+							return isK && ((r.Op == token.EQL && k == 0) || (r.Op == token.LEQ && k == 0) || (r.Op == token.LSS && k <= 0))
+						})
+						if !isC || !unset {
+							bad = append(bad, fmt.Sprintf("%s: %s rewrites %s on a path where it was configured (stores %s): %s", p.At(ins), p.Key(ad), fr.Name, valueString(strip(st.Val, true)), joinWitness(p.DescribePath(pa))))
+						}
+						return len(bad) < 2
+					})
+					return len(bad) < 2
+				})
+				l.Check(len(bad) == 0, "O7", p.FieldKey(fr)+"/defaulting", p.FuncPos(ad), fmt.Sprintf("%d store(s): only a constant, and only where the field was left unset", nst), "the bound that is enforced is not the one that was configured", bad...)
+			}
 		}
 	}
 
@@ -885,4 +1011,34 @@ func hasCondField(nt *types.Named) bool {
 		}
 	}
 	return false
+}
+
+// c13Waits: the function (or a module function it calls, to the given depth, including goroutines it spawns) waits on a
+// condition variable or in a select: its boolean result is the outcome of a wait.
+func c13Waits(p *Prog, f *ssa.Function, depth int) bool {
+	found := false
+	allInstrs(f, func(ins ssa.Instruction) {
+		if found {
+			return
+		}
+		switch x := ins.(type) {
+		case *ssa.Select:
+			if x.Blocking {
+				found = true
+			}
+		case ssa.CallInstruction:
+			c := p.CallOf(x)
+			if c == nil {
+				return
+			}
+			if c.Is("(*sync.Cond).Wait") {
+				found = true
+				return
+			}
+			if depth > 0 && c.Static != nil && p.InModule(c.Static) && c.Static != f && c13Waits(p, c.Static, depth-1) {
+				found = true
+			}
+		}
+	})
+	return found
 }
